@@ -165,10 +165,10 @@ INMOD = {
     "c03": [("parser_state::verif_kani::constrain_idxs_complete", "quick", True,
              "constrain_idxs(start, end, len) equals the index normalisation spec norm_idx for every i32 start, every Option<i32> end and every len <= i32::MAX (the contract ASSUMED in the core unit)",
              "none: loop-free harness over the full domain")],
-    "c10": [("position::verif_kani::find_line_start_chars3", "quick", False,
-             "find_line_start == ls (the contract ASSUMED in the lines unit) for every string of <= 3 characters over {a, \\n, \\r, é, €} and every boundary offset", "<= 3 characters from a 5-character mixed-width alphabet, unwind 11"),
-            ("position::verif_kani::find_line_end_chars3", "quick", False,
-             "find_line_end == le (ASSUMED in the lines unit), same bound", "<= 3 characters from a 5-character mixed-width alphabet, unwind 11"),
+    "c10": [("position::verif_kani::find_line_start_chars3", "thorough", False,
+             "find_line_start == ls (the contract now proved in the lines unit; kept as a cross-check) for every string of <= 3 characters over {a, \\n, \\r, é, €} and every boundary offset", "<= 3 characters from a 5-character mixed-width alphabet, unwind 11"),
+            ("position::verif_kani::find_line_end_chars3", "thorough", False,
+             "find_line_end == le (now proved in the lines unit; cross-check), same bound", "<= 3 characters from a 5-character mixed-width alphabet, unwind 11"),
             ("position::verif_kani::line_col_chars3", "thorough", False,
              "Position::line_col == (1 + newlines, 1 + characters since the last newline), same bound", "<= 3 characters from a 5-character mixed-width alphabet, unwind 11"),
             ("position::verif_kani::position_line_col_bounded_3", "thorough", False,
@@ -227,7 +227,16 @@ def _group_enum(searcher, harness, what, bound, env_quick=None, env_thorough=Non
             except subprocess.TimeoutExpired:
                 st, reason, out = "undecided", "timeout", ""
         b = bound(tier) if callable(bound) else bound
-        return [dict(harness=harness, kind="enum", status=st, reason=reason or out[-300:], output=out[-2000:], complete=False, what=what,
+        extra = []
+        for line in (out or "").split("\n"):
+            # a searcher reports a listed known finding separately and goes on: it becomes its own (failed) obligation, which the
+            # check matches against known_findings.json by name - a different failure of the same enumeration is still reported
+            if line.startswith("KNOWN-WITNESS "):
+                kid, _, kjson = line[14:].partition(" ")
+                extra.append(dict(harness="%s[%s]" % (harness, kid), kind="enum", status="failed", reason=kjson, output=line, complete=False,
+                                  what="known finding %s reproduced by the enumeration" % kid, bound=b, wall_s=0.0,
+                                  cmd="out/target-replay/release/%s_search --search %s" % (searcher, pid)))
+        return extra + [dict(harness=harness, kind="enum", status=st, reason=reason or out[-300:], output=out[-2000:], complete=False, what=what,
                      bound=b + " - exhaustive native enumeration on the real code, not a deductive proof",
                      wall_s=time.time() - t0, cmd="out/target-replay/release/%s_search --search %s" % (searcher, pid))]
     return g
